@@ -451,7 +451,8 @@ def xtextjoin(delimiter, ignore_empty, text, *args):
         it = (v for v in flatten((text,) + args, is_not_empty) if v != '')
     else:
         it = (replace_empty(v, '') for v in flatten((text,) + args, None))
-    return _str(next(flatten(delimiter, None))).join(map(_str, it))
+    delimiter = replace_empty(next(flatten(delimiter, None)), '')
+    return _str(delimiter).join(map(_str, it))  # A blank delimiter is ''.
 
 
 FUNCTIONS['_XLFN.TEXTJOIN'] = FUNCTIONS['TEXTJOIN'] = wrap_func(xtextjoin)
